@@ -414,7 +414,11 @@ fn check_prog(p: &Prog, seed: u64, huge: bool, st: &mut Stats) -> Option<Viol> {
     let bxs: Vec<Vec<(f32, f32)>> = (0..6)
         .map(|_| {
             let k = if huge {
-                if rng.chance(0.5) { BoxKind::Huge } else { BoxKind::MixedAll }
+                match rng.below(4) {
+                    0 => BoxKind::Huge,
+                    1 => BoxKind::TrigEdge,
+                    _ => BoxKind::MixedAll,
+                }
             } else {
                 boxes::random_tame_kind(rng)
             };
@@ -462,8 +466,14 @@ impl Prop for C03 {
         if rng.chance(0.5) {
             cfg.n_vars = 3;
         }
+        let huge = rng.chance(0.3);
+        if huge && rng.chance(0.5) {
+            // trigonometry applied directly to the inputs, so that the edge
+            // boxes reach sin/cos/tan unchanged
+            cfg.profile = prog::Profile::Libm;
+            cfg.size = cfg.size.min(6);
+        }
         let p = prog::generate(rng, &cfg);
-        let huge = rng.chance(0.25);
         st.distinct(p.hash());
         st.sample(|| json!({"program": p.to_json(), "huge_boxes": huge}));
         let seed = rng.next_u64();
